@@ -56,6 +56,9 @@ CHAIN_POOL = [
     'REGEX["^[a-z]+$"]', 'REGEX["^abc$"]', 'REGEX["^\\d+$"]', 'REGEX["^a.c$"]', 'REGEX["[0-9]*"]',
 ]
 # patterns covering literals, escapes, groups, alternation, quantifier braces, classes, anchors
+# one member per kind / per interesting value class, for the quick tier's pairs
+CHAIN_QUICK = ["REQ", "OPT", "DIR", "APPEND_ONLY", "DATE", "ISO8601", "TYPE[NUMBER]", "TYPE[BOOLEAN]", "TYPE[LITERAL]", "LANG[python]", "RANGE[1,5]", "MAX_LENGTH[3]",
+               "MIN_LENGTH[0]", "MIN_LENGTH[2]", "CONST[ACTIVE]", "CONST[true]", 'CONST["a\\"b"]', "ENUM[A,B]", 'ENUM["q\\\\",z]', "ENUM[]", 'REGEX["^[a-z]+$"]', 'REGEX["^abc$"]']
 REGEX_POOL = [
     "^abc$", "abc", "^[a-z]+$", "^[A-Z_]+$", "[0-9]*", "^[a-z]?$", "^[a-z]$", "^[^a-z]+$", "^[a-z]+[0-9]+$", "^a.c$", ".", ".*", ".+", "..", "^$", "",
     "^", "$", "^^[a]$$", "a$b", "^(a|b)$", "^(ab)+$", "^a|b$", "^a{2,3}$", "^[a-z]{2}$", "^[a-z]{2,}$", "^a{2}$", "^a{2,}$", "^\\d+$", "^\\w+$", "^\\s*$",
@@ -283,41 +286,20 @@ def eval_case(case):
 # --------------------------------------------------------------------------------------------------
 # classification of an ill-formed grammar against the recorded finding classes
 # --------------------------------------------------------------------------------------------------
-CLASSES = [("F20", G.kf_structural_name), ("F21", G.kf_sanitise_collision), ("F22", G.kf_regex_passthrough),
-           ("C12N1", G.kf_field_name_unescaped), ("C12N2", G.kf_schema_name_unescaped)]
-
-
-def classify(o, rep):
-    """rep: lenient report of an ill-formed grammar.  -> (finding id | None, reason)"""
-    args = (o["name"], [tuple(f) for f in o["fields"]], o["envelope"])
-    inside = [fid for fid, pred in CLASSES if pred(*args)]
-    text_classes = [c for c in inside if c in ("F22", "C12N1", "C12N2")]   # classes that paste foreign text
+def describe(rep):
+    """why a grammar is not well-formed (lenient report)"""
     if not rep["ok"]:
-        return (text_classes[0] if text_classes else None), "does not parse: " + str(rep.get("error"))
+        return "does not parse: " + str(rep.get("error"))
     reasons = []
-    expl = None
     if rep["duplicates"]:
         reasons.append(f"rules defined twice {rep['duplicates']}")
-        pred = G.predicted_duplicates(args[1])
-        if set(rep["duplicates"]) <= pred:
-            names = [G.ref_sanitize(n) for n, _ in args[1]]
-            expl = "F20" if any(d in G.STRUCTURAL for d in rep["duplicates"] if d in names) else "F21"
-        elif text_classes:
-            expl = text_classes[0]
-        else:
-            return None, "; ".join(reasons)
-    for key, what in (("undefined", "undefined rules"), ("empty_alts", "empty alternative in"),):
-        if rep[key]:
-            reasons.append(f"{what} {rep[key]}")
-            if not text_classes:
-                return None, "; ".join(reasons)
-            expl = expl or text_classes[0]
+    if rep["undefined"]:
+        reasons.append(f"undefined rules {rep['undefined']}")
+    if rep["empty_alts"]:
+        reasons.append(f"empty alternative in {rep['empty_alts']}")
     if not rep["root"]:
         reasons.append("root not defined")
-        if not text_classes:
-            return None, "; ".join(reasons)
-        expl = expl or text_classes[0]
-    return expl, "; ".join(reasons)
+    return "; ".join(reasons)
 
 
 def same_report(p, m):
@@ -395,17 +377,26 @@ def gen_cases(ctx):
     for sn in SCHEMA_NAMES:
         add({"kind": "api", "name": sn, "fields": [["STATUS", "REQ"]]})
         add({"kind": "api", "name": sn, "fields": []})
-    # E2 every chain of length <= L over the pool (single field)
-    for ct in chain_texts(3 if wide else 2):
+    # E2 every chain of length <= L over the pool (single field); quick: all single members, all pairs over one member per kind
+    if wide:
+        e2 = chain_texts(3 if ctx.thorough else 2)
+    else:
+        e2 = chain_texts(1) + ["∧".join(c) for c in itertools.product(CHAIN_QUICK, repeat=2)]
+    for ct in e2:
         add({"kind": "api", "name": "S", "fields": [["F", ct]]})
     # E3 every regex pattern alone and after REQ / before TYPE
     for p in REGEX_POOL:
         for tmpl in ('REGEX["%s"]', 'REQ∧REGEX["%s"]', 'REGEX["%s"]∧TYPE[STRING]', 'REGEX[%s]'):
             add({"kind": "api", "name": "S", "fields": [["P", tmpl % p]]})
         add({"kind": "api", "name": "S", "fields": [["abc", "REQ"], ["P", 'REGEX["%s"]' % p], ["x-y", "OPT"]]})
-    # E4 all pairs of names (collisions)
-    for a, b in itertools.combinations(NAME_POOL, 2):
-        add({"kind": "api", "name": "S", "fields": [[a, "REQ"], [b, "OPT"]]})
+    # E4 pairs of names (collisions): thorough all pairs; quick every pair whose sanitised names are equal or structural,
+    # every name against its two neighbours, and a fixed stride through the rest
+    for k, (a, b) in enumerate(itertools.combinations(NAME_POOL, 2)):
+        ra, rb = G.ref_sanitize(a), G.ref_sanitize(b)
+        if wide or ra == rb or ra in G.STRUCTURAL or rb in G.STRUCTURAL or k % 13 == 0:
+            add({"kind": "api", "name": "S", "fields": [[a, "REQ"], [b, "OPT"]]})
+    for a, b, c in zip(NAME_POOL, NAME_POOL[1:], NAME_POOL[2:]):
+        add({"kind": "api", "name": "S", "fields": [[a, "REQ"], [b, "OPT"], [c, None], [a.lower(), "REQ"], [b.upper(), "REQ"]]})
     # E5 document routes: names x chains (reader decides what it accepts)
     doc_chains = [None, "REQ", "OPT∧ENUM[A,B]", 'CONST["a\\"b"]', 'REGEX["^[a-z]+$"]', 'REGEX["^abc$"]', "TYPE[NUMBER]", "DATE", "REQ∧ISO8601", "CONST[42]", "ENUM[1,2.50,true]",
                   'CONST["a\\\\b"]', "TYPE[LIST]", "APPEND_ONLY", "DIR", "RANGE[1,5]", "MIN_LENGTH[2]", "MAX_LENGTH[3]", "TYPE[LITERAL]", "LANG[python]", 'REGEX["^a.c$"]', 'REGEX["^\\\\d+$"]']
@@ -452,7 +443,7 @@ def gen_cases(ctx):
                   [" FIELD[A]::REQ　"], ["FIELD[A]::REQ\x1f"], ["FIELD[A]::REQ\x85"], ["FIELD[A]::REQ​"], ["FIELD[ A ]:: REQ"]):
         add({"kind": "contract-list", "type": "S", "specs": specs})
     # R seeded structured random schemas (all routes)
-    n_rand = ctx.budget(1200, 12000)
+    n_rand = ctx.budget(500, 12000)
     ch1 = chain_texts(1)
     for i in range(n_rand):
         nf = rng.choice([0, 1, 1, 2, 2, 3, 4, 6])
@@ -481,6 +472,14 @@ def gen_cases(ctx):
     return cases
 
 
+def replay_cases(path):
+    d = json.loads(open(path).read())
+    if "case" in d:
+        return [d["case"]]
+    cs = [x["case"] for x in d.get("correspondence_disagreements", []) if isinstance(x.get("case"), dict) and "kind" in x["case"]]
+    return cs or []
+
+
 # --------------------------------------------------------------------------------------------------
 def run(ctx: vlib.Ctx):
     ctx.rule = ("a case = one schema (kind: api / FIELDS document / META.CONTRACT tokens / CONTRACT list / packaged) evaluated at every "
@@ -497,9 +496,11 @@ def run(ctx: vlib.Ctx):
 
     findings = vlib.load_findings(ctx.prop)
     if ctx.replay:
-        cases = [json.loads(open(ctx.replay).read())["case"]]
+        cases = replay_cases(ctx.replay)
     else:
-        cases = [f["witness"]["case"] for f in findings] + gen_cases(ctx)
+        corpus = [json.loads(f.read_text())["case"] for f in sorted((vlib.VERIF / "corpus" / ctx.prop).glob("*.json"))]
+        cases = [f["witness"]["case"] for f in findings] + corpus + gen_cases(ctx)
+        ctx.extra["corpus_cases"] = len(corpus)
     n_known = 0 if ctx.replay else len(findings)
 
     results = vlib.pmap(eval_case, cases)
@@ -573,19 +574,14 @@ def run(ctx: vlib.Ctx):
             # oracle: the grammar must be well-formed (lenient alphabet); strict alphabet separately
             args = (o["name"], [tuple(f) for f in o["fields"]], o["envelope"])
             if not pl["wellformed"]:
-                fid, why = classify(o, pl)
-                ctx.count("illformed:" + (fid or "NEW"))
-                if fid is not None:
-                    ctx.known_hits[fid] = ctx.known_hits.get(fid, 0) + 1
-                    if is_witness and fid == findings[ci]["id"]:
-                        reproduced.setdefault(ci, f"{route}: {why}")
-                else:
-                    ctx.failures.append({"case": case, "route": route, "why": "returned grammar is not well-formed GBNF: " + why,
-                                         "why_class": "illformed:" + why.split(":")[0].split("[")[0][:40], "grammar": g[:3000], "recogniser_report": pl})
+                why = describe(pl)
+                ctx.count("illformed")          # no finding class is open for the lenient alphabet: every ill-formed grammar is a violation
+                ctx.failures.append({"case": case, "route": route, "why": "returned grammar is not well-formed GBNF: " + why,
+                                     "why_class": "illformed:" + why.split(":")[0].split("[")[0][:40], "grammar": g[:3000], "recogniser_report": pl})
             else:
                 ctx.count("wellformed")
                 if not ps["wellformed"]:
-                    if G.kf_underscore_rule_name(*args) or G.kf_regex_passthrough(*args):
+                    if G.kf_underscore_rule_name(*args):
                         ctx.known_hits["F23"] = ctx.known_hits.get("F23", 0) + 1
                         ctx.count("strict-alphabet:F23")
                         if is_witness and findings[ci]["id"] == "F23":
@@ -602,7 +598,7 @@ def run(ctx: vlib.Ctx):
             ctx.notes.append(f"known finding {f['id']} did not reproduce on this tree (witness now yields a well-formed grammar)")
 
     if not ctx.replay:
-        fuzz_recognisers(ctx, drv, list(gtexts)[:: max(1, len(gtexts) // 300)], ctx.budget(3000, 40000))
+        fuzz_recognisers(ctx, drv, list(gtexts)[:: max(1, len(gtexts) // 300)], ctx.budget(1500, 40000))
     ctx.extra["distinct_grammars"] = len(gtexts)
     ctx.extra["lean_requests"] = len(reqs)
     ctx.n_facts = 0
